@@ -69,7 +69,7 @@ CLAIMED = {
  'C03': dict(
    text='TLC proves on the bounded network and circuit models the relations a transformed description must satisfy: reversing any subset of elements (source values negated) '
         'leaves all potentials unchanged and negates exactly those elements\' own voltage and current (powers unchanged), another reference node is a common shift, every '
-        'permutation of the listing gives the same solution, port impedances are unchanged.  The replay applies seeded random combinations of 30 adversarial naming schemes, '
+        'permutation of the listing gives the same solution, port impedances are unchanged.  The replay applies seeded random combinations of 42 adversarial naming schemes (incl. identifiers and node labels that are substrings of one another), '
         'permutations, reversal subsets, reference nodes / ground placements to the real objects (network solver, port impedance, DC and complex circuit solutions; '
         'state-space and transient results through the C10/C12 drivers) and compares with the base expectation pushed through those relations.',
    ref='DESIGN.md §6 C03', technique='TLA+ spec + TLC bounded model checking of the invariance relations; spec->code replay of transformed descriptions'),
